@@ -27,6 +27,9 @@ pub struct FrameBatch {
 }
 
 impl FrameBatch {
+  /// Maximum number of frames a batch can hold (`VecU8` is indexed by a `u8`); pushing more panics.
+  pub const MAX_FRAMES: usize = u8::MAX as usize;
+
   pub fn new() -> Self {
     Self { inner: FrameBatchInner::Empty }
   }
